@@ -122,6 +122,50 @@ def unit_level(chk: core.Check, ext):
                     meta[cid] = dict(cls=cls, name=p.Name, utype=p.UnitType.name, given=u.value, pref=pref.value, decl_cur=decl_cur, text=text, x=x, target=target,
                                      outcome=outcome, msg=msg, stored=stored, cur_after=cur_after, echo_val=echo_val, echo_unit=echo_unit, echo_err=echo_err,
                                      mn=float(p.Min), mx=float(p.Max), default=p.DefaultValue)
+    # the same text for several parameters of one unit type with different working units (e.g. '3000 meter' for a depth in km and a height in m):
+    # up to 3 texts per (unit type, unit), each tried on every parameter of that type; probes whose value leaves the range are dropped below
+    by_type = {}
+    for cid, c in list(meta.items()):
+        if c['given'] != c['pref']:
+            by_type.setdefault((c['utype'], c['given']), [])
+            if len(by_type[(c['utype'], c['given'])]) < 3 and c['x'] not in [t[0] for t in by_type[(c['utype'], c['given'])]]:
+                by_type[(c['utype'], c['given'])].append((c['x'], c['text']))
+    live = {}
+    for fam, settings in list(extract.FAMILIES):
+        try:
+            m2 = extract.instantiate_family(settings)
+        except Exception:
+            continue
+        for mod in [getattr(m2, a, None) for a in extract.MODULES]:
+            if mod is None or not hasattr(mod, 'ParameterDict') or type(mod).__name__ in ('Outputs', 'OutputsAddOns', 'OutputsS_DAC_GT'):
+                continue
+            for key, p in mod.ParameterDict.items():
+                if isinstance(p, floatParameter) and (type(mod).__name__, p.Name) not in live and hasattr(p.PreferredUnits, 'value') and p.UnitType != Units.NONE:
+                    live[(type(mod).__name__, p.Name)] = (p, m2)
+    for (cls, pname), (p, m2) in live.items():
+        pref = p.PreferredUnits
+        decl_cur = p.CurrentUnits.value if hasattr(p.CurrentUnits, 'value') else str(p.CurrentUnits)
+        for (utype, given), texts in by_type.items():
+            if utype != p.UnitType.name or given == pref.value:
+                continue
+            for x, text in texts:
+                q = copy.deepcopy(p)
+                q.Provided, q.Valid = False, False
+                try:
+                    with contextlib.redirect_stdout(io.StringIO()):
+                        ReadParameter(ParameterEntry(Name=p.Name, sValue=text, Comment=''), q, m2)
+                    outcome, msg = 'accept', None
+                except Exception as e:  # noqa
+                    outcome, msg = 'raises', f'{type(e).__name__}: {str(e)[:160]}'
+                if outcome != 'accept' or not q.Provided:
+                    continue   # out of this parameter's range / a listed finding / equal to the default (reader returns early): the dedicated probe above decides those
+                stored, cur_after = q.value, (q.CurrentUnits.value if hasattr(q.CurrentUnits, 'value') else str(q.CurrentUnits))
+                cid = f'u{n}'
+                n += 1
+                lines.append(f'readunit {cid} given={enc(given)} cur={enc(decl_cur)} pref={enc(pref.value)} found=0 x={core.frac(x)}')
+                meta[cid] = dict(cls=cls, name=p.Name, utype=utype, given=given, pref=pref.value, decl_cur=decl_cur, text=text, x=x, target=None,
+                                 outcome=outcome, msg=msg, stored=stored, cur_after=cur_after, echo_val=stored, echo_unit=pref.value, echo_err=None,
+                                 mn=float(p.Min), mx=float(p.Max), default=p.DefaultValue, shared=True)
     res = chk.driver(lines)
     mismatch_names = {d['name'] for d in ext['Units']['data']['declared_mismatch']}
     for cid, c in meta.items():
@@ -177,7 +221,9 @@ def unit_level(chk: core.Check, ext):
             chk.fail(f'C06/declared-units/{c["name"]}', f'{c["name"]} is declared with current unit "{c["decl_cur"]}" but working unit "{c["pref"]}": the reader converts to the former, '
                      f'the range test and the calculations assume the latter', rep)
             continue
-        chk.tag(f'unit/conv/{kind}/value-right')
+        chk.tag(f'unit/conv/{kind}/value-right' + ('/shared-text' if c.get('shared') else ''))
+        if c.get('shared'):
+            continue
         # echo: what the writer will print is (echo_val, echo_unit)
         if c['echo_val'] is None:
             chk.fail(f'C06/echo/raises/{pair}', f'{c["name"]}: converting back for the report fails after reading "{c["text"]}"', rep)
@@ -257,9 +303,13 @@ def whole_run_pairs(chk: core.Check, ext, per_family):
         conv = chk.driver([f'uconv k{i} from={enc(u)} to={enc(d["preferred"])} x=1' for i, (d, u) in enumerate(cands)])
         cands = [c for i, c in enumerate(cands) if 'tag=conv' in conv.get(f'k{i}', '')]
         chk.rng.shuffle(cands)
+        # parameters the base input sets explicitly are the ones the results depend on: all their pairs are taken, the rest is a seeded sample
+        first = [c for c in cands if c[0]['name'] in base]
+        rest = [c for c in cands if c[0]['name'] not in base]
+        cands = first + rest
         taken = 0
-        for d, unit in cands:
-            if taken >= per_family:
+        for ci, (d, unit) in enumerate(cands):
+            if ci >= len(first) and taken >= len(first) + per_family:
                 break
             v0 = base.get(d['name'])
             if not isinstance(v0, (int, float)) or isinstance(v0, bool):
@@ -458,8 +508,8 @@ def run(chk: core.Check) -> int:
     clean = chk.prove(['GeoVerif.Properties.C06'])
     quick = chk.tier == 'quick'
     unit_level(chk, ext)
-    whole_run_pairs(chk, ext, 8 if quick else 80)
-    output_directive(chk, ext, 6 if quick else 60)
+    whole_run_pairs(chk, ext, 6 if quick else 80)
+    output_directive(chk, ext, 100000)   # complete: every output x convertible catalogue unit x family (about 1500 runs)
     chk.assumptions += ['"dimensionally convertible" = the unit text is a product of atoms the SI model defines and has the dimension of the class\'s first member; the excluded '
                         'members are listed in Properties/C06.notConvertible (other currencies, angles, texts pint reads as something else such as "mt")',
                         'whole-run equality is measured at 1e-7 relative (the reader converts with binary floating point, so the stored number can differ in the last bits)',
